@@ -8,7 +8,7 @@ import HmsProofs.Lemmas.CheckTemplate
 Property theorems only; the proofs are in `HmsProofs/Lemmas/Check*.lean`.
 
 * `Hms.Check.check : PProg → List Diag` is the algorithmic checker (model of the Go analyzer
-  after the repairs A1–A7, A9, A10; tied to the real analyzer by `./check.py C03`),
+  after the repairs A1–A7, A9, A10, F1; tied to the real analyzer by `./check.py C03`),
 * `Hms.Check.WellTyped` / `ProgOK` / `HasType` / `StmtOK` … is the declarative typing relation
   (the specification, `Hms/Check/Typing.lean`).
 
@@ -326,8 +326,13 @@ example : hasErr ⟨[], []⟩ .mainShape = true := by decide +kernel
 example : hasErr ⟨[], [⟨"main", [("a", .name "int")], .name "null", 0, body []⟩]⟩ .mainShape = true := by decide +kernel
 example : hasErr ⟨[], [⟨"main", [], .name "int", 0, .mk .nil (.int 1)⟩]⟩ .mainShape = true := by decide +kernel
 
-example : Compatible true (.fn [("a", .int), ("b", .list .never)] .never) (.fn [("b", .list .str), ("a", .any)] (.opt .int)) :=
+example : Compatible true (.fn [("a", .int), ("b", .list .never)] .never) (.fn [("a", .any), ("b", .list .str)] (.opt .int)) :=
   (typecheck_decides_compatibility _ _ _).mp (by decide +kernel)
+/-- F1: parameters correspond by position, `fn g(a: int, b: str) -> int` is no `fn(b: str, a: int) -> int` -/
+example : ¬ Compatible true (.fn [("a", .int), ("b", .str)] .int) (.fn [("b", .str), ("a", .int)] .int) :=
+  fun h => absurd ((typecheck_decides_compatibility _ _ _).mpr h) (by decide +kernel)
+example : typeCheck true (.fn [("a", .int), ("b", .str)] .int) (.fn [("b", .str), ("a", .int)] .int) = some .fnParamMissing := by
+  decide +kernel
 example : ¬ Compatible false (.obj [("a", .int), ("b", .str)]) (.obj [("a", .int)]) :=
   fun h => absurd ((typecheck_decides_compatibility _ _ _).mpr h) (by decide +kernel)
 
